@@ -207,6 +207,16 @@ def event_world(seed, twins=True):
                 w.make_read(chrom, mir, truth={"src": gid + ".t1", "class": "micro-intron-retained-in-terminal-exon-" + side})
                 w.make_read(chrom, fake, truth={"src": gid + ".t1", "class": "fake-terminal-exon-" + side})
             p0 = e[-1][1] + rng.randint(2500, 3500)
+    # reads running beyond the isoform with TWO extra introns on one side: a short (30 bp) inner extra exon and a long (300 bp) outermost one
+    for g in [g_ for g_ in w.genes if g_.id.startswith("T") and not g_.id.startswith("TINY")]:
+        t = g.transcripts[0]
+        ex = list(t.exons)
+        for q in range(2):
+            w.make_read(t.chrom, ex[2:4] + [(ex[4][0], ex[4][1] + 50), (ex[4][1] + 201, ex[4][1] + 230), (ex[4][1] + 401, ex[4][1] + 700 - 10 * q)],
+                        truth={"src": t.id, "class": "two-extra-introns-right-short-inner-exon"})
+            if ex[0][0] > 900:
+                w.make_read(t.chrom, [(ex[0][0] - 700 + 10 * q, ex[0][0] - 401), (ex[0][0] - 230, ex[0][0] - 201), (ex[0][0] - 50, ex[0][1])] + ex[1:3],
+                            truth={"src": t.id, "class": "two-extra-introns-left-short-inner-exon"})
     # a 3-base terminal read exon, all of its bases mismatching, whose splice site lies 6 bp inside the neighbouring annotated intron (jitter
     # within delta with errors next to the junction: the annotated site would be forced, but it lies BEYOND the end of the read)
     comp_ = {"A": "C", "C": "A", "G": "T", "T": "G"}
